@@ -96,6 +96,9 @@ def run(chk):
     for kind in FLOAT_KINDS:
         for m in (1, 2, 3, 4, 16):
             pcells.append(dict(kind=kind, m=m, trials=(240000 if quick else 1200000) // (4 if m >= 16 else 1)))
+        # large sketches: in single precision r + j has few bits left for r (integer parts must stay a permutation)
+        for m in (256, 1024, 4096):
+            pcells.append(dict(kind=kind, m=m, trials=(3000000 if quick else 20000000) // m))
     cin = os.path.join(chk.wd, "prim.json")
     json.dump(dict(cells=pcells), open(cin, "w"))
     out = os.path.join(chk.wd, "prim_out.json")
